@@ -284,7 +284,7 @@ func init() {
 			return s
 		},
 		Run:  c12Run,
-		Rule: "signatures built with reflect.FuncOf/MakeFunc (each is a recording helper): 0..2 (3 thorough) fixed parameters over {string,int,interface{},*struct,*other-struct} x tail {none, map[string]interface{}, hctx.Map, plush.HelperContext, hctx.HelperContext, an application-defined interface with the same method set, map+context in all typings, ...int, ...string, ...interface{}} x result shapes {(), (T), (T,nil), (T,err), (nil error), (error)}; calls with every argument list of length 0..3 (4 thorough) over {nil, \"s\", 1, hash literal, array literal, true, typed nil pointer and non-nil pointer from the context}, each argument wrapped in a logging identity helper, without a block, with a block and with an empty block, after an earlier completed helper call with more arguments. Reference binder: too many / non-assignable => error naming the callee, function not invoked; otherwise invoked exactly once with every supplied value unchanged (nil => zero value of the parameter type, also in the variadic tail), omitted trailing map => non-nil empty map of the call's own (every recording helper writes a mark into the map it received), omitted helper context => context whose HasBlock()/Block() reflect the call's block; argument log duplicate-free, in source order (a prefix when binding fails); first result is the value, non-nil trailing error fails the render. Omitted ordinary parameters are unspecified (either error or zero-fill accepted, supplied positions still checked). Polymorphic call sites: one method call node evaluated with receivers of 3 struct types (and a pointer) whose method sets put the name at different positions, in a loop over a mixed slice and as consecutive executions of one parsed template: the named method is invoked with the supplied argument. Error result shapes: trailing results declared as *E, E (value type), error holding a typed nil, (T, int, error): nil does not fail the render, non-nil does. Indexed receivers: methods called on rs[i] / m[k] / h.Rs[i] / a helper result's element with arguments that mention the indexed variable (the whole list, another element, len of it): the arguments arrive unchanged. Chained calls: (T, error) functions and methods followed by nothing / field / method / nested path / index, in 8 statement forms, succeeding and failing: invoked once, arguments evaluated once, a failing call fails the render with the function's error wrapped and its value is never used. Non-trivial: at least one argument or an auto-supplied parameter.",
+		Rule: "signatures built with reflect.FuncOf/MakeFunc (each is a recording helper): 0..2 (3 thorough) fixed parameters over {string,int,interface{},*struct,*other-struct} x tail {none, map[string]interface{}, hctx.Map, plush.HelperContext, hctx.HelperContext, an application-defined interface with the same method set, map+context in all typings, ...int, ...string, ...interface{}} x result shapes {(), (T), (T,nil), (T,err), (nil error), (error)}; calls with every argument list of length 0..3 (4 thorough) over {nil, \"s\", 1, hash literal, array literal, true, typed nil pointer and non-nil pointer from the context}, each argument wrapped in a logging identity helper, without a block, with a block and with an empty block, after an earlier completed helper call with more arguments. Reference binder: too many / non-assignable => error naming the callee, function not invoked; otherwise invoked exactly once with every supplied value unchanged (nil => zero value of the parameter type, also in the variadic tail), omitted trailing map => non-nil empty map of the call's own (every recording helper writes a mark into the map it received), omitted helper context => context whose HasBlock()/Block() reflect the call's block; argument log duplicate-free, in source order (a prefix when binding fails); first result is the value, non-nil trailing error fails the render. Omitted ordinary parameters are unspecified (either error or zero-fill accepted, supplied positions still checked). Polymorphic call sites: one method call node evaluated with receivers of 3 struct types (and a pointer) whose method sets put the name at different positions, in a loop over a mixed slice and as consecutive executions of one parsed template: the named method is invoked with the supplied argument. Refresh: literal hash / array arguments of a call site evaluated repeatedly (loop, function called thrice, second execution) whose helper modifies what it received: every call receives the literal afresh. Error result shapes: trailing results declared as *E, E (value type), error holding a typed nil, (T, int, error): nil does not fail the render, non-nil does. Indexed receivers: methods called on rs[i] / m[k] / h.Rs[i] / a helper result's element with arguments that mention the indexed variable (the whole list, another element, len of it): the arguments arrive unchanged. Chained calls: (T, error) functions and methods followed by nothing / field / method / nested path / index, in 8 statement forms, succeeding and failing: invoked once, arguments evaluated once, a failing call fails the render with the function's error wrapped and its value is never used. Non-trivial: at least one argument or an auto-supplied parameter.",
 		Bound: func(th bool) string {
 			if th {
 				return "<=3 fixed parameters, <=4 arguments"
@@ -299,6 +299,7 @@ func c12Run(t *engine.T, shard string) {
 		c12Chain(t)
 		c12Indexed(t)
 		c12ErrorShapes(t)
+		c12Refresh(t)
 		return
 	}
 	if shard == "poly" {
@@ -559,6 +560,49 @@ func c12ErrorShapes(t *engine.T) {
 			}
 			if err != nil || out != c.want {
 				return "", engine.Failf("mismatch", "a nil trailing error result: expected %q, got %q / %v", c.want, out, err)
+			}
+			return "invoked", nil
+		})
+	}
+}
+
+// c12Refresh: a call site evaluated repeatedly hands the helper freshly evaluated arguments every time, also when
+// they are literals and the helper modifies what it received.
+func c12Refresh(t *engine.T) {
+	cases := []struct{ src, want string }{
+		{`<%= for (i) in [1, 2, 3] { %><%= strip({"class": "c", "id": "x"}) %>,<% } %>`, "2-1,2-1,2-1,"},
+		{`<%= for (i) in [1, 2] { %><%= push([1, 2]) %>,<% } %>`, "2-3,2-3,"},
+		{`<% let f = fn() { return strip({"class": "c"}) } %><%= f() %>|<%= f() %>|<%= f() %>`, "1-0|1-0|1-0"},
+		{`<%= for (i) in [1, 2] { %><%= strip({"class": "c", "n": {"class": "d"}}) %>,<% } %>`, "2-1,2-1,"},
+		{`<%= for (i) in [1, 2] { %><%= strip({}) %><%= strip({"a": i}) %>,<% } %>`, "0-01-1,0-01-1,"},
+	}
+	for _, c := range cases {
+		c := c
+		t.Case("refresh "+q(c.src), true, func() (string, *engine.Fail) {
+			plush.CacheEnabled = false
+			tm, err := plush.NewTemplate(c.src)
+			if err != nil {
+				return "", engine.Failf("harness", "%v", err)
+			}
+			for pass := 1; pass <= 2; pass++ {
+				ctx := plush.NewContext()
+				ctx.Set("strip", func(o map[string]interface{}) string {
+					n := len(o)
+					delete(o, "class")
+					o["touched"] = true
+					delete(o, "touched")
+					return fmt.Sprintf("%d-%d", n, len(o))
+				})
+				ctx.Set("push", func(l []interface{}) string {
+					n := len(l)
+					l[0] = "changed"
+					l = append(l, 9)
+					return fmt.Sprintf("%d-%d", n, len(l))
+				})
+				out, err := tm.Exec(ctx)
+				if err != nil || out != c.want {
+					return "", engine.Failf("args", "execution %d: expected %q, got %q / %v", pass, c.want, out, err)
+				}
 			}
 			return "invoked", nil
 		})
